@@ -184,6 +184,27 @@ pub fn check_gen(ctx: &Ctx, c: &GenCase, st: &mut Stats) -> Result<(), Fail> {
                     );
                 }
             }
+            // the spies only observe: the same case with the registered mutators unwrapped must give the same
+            // bytes (otherwise the unwrapped mutators were not offered the same values, or a different one of
+            // them mutated a value, and the counts above say nothing about them)
+            if let Ok(bare) = c.run() {
+                if bare[..] != a.output().unwrap()[..] {
+                    return ctx.fail(
+                        st,
+                        Fail::new(
+                            "unwrapped-mutators-differ",
+                            format!(
+                                "{}: the registered mutators, each wrapped in a delegating observer, were offered every value and the first applicable one fired ({} values, {} mutations) - but the same generation with the mutators unwrapped gives different bytes",
+                                c.brief(),
+                                values,
+                                fired
+                            ),
+                        )
+                        .with_output(&bare),
+                    );
+                }
+                st.label("unwrapped run byte-identical to the observed run");
+            }
             st.add("values / emissions offered to mutators", values as u64);
             st.add("mutations applied", fired as u64);
             let bytes_mode = matches!(c.entropy, Entropy::Bytes(_));
